@@ -524,6 +524,9 @@ def run(ctx, rep):
     rule_grow(ctx, rep)
     from rules import c03_errdrop
     c03_errdrop.run(ctx, rep, rid="R-C03-errdrop")
+    # a faulty declaration between two comments must not be swallowed by the first comment
+    from rules import c08_trivia
+    c08_trivia.run_comment(ctx, rep, rid="R-C03-comment")
     # a faulty file must not be replaced in the file table by a different file that merely compares equal
     from rules.c06 import rule_types
     rule_types(ctx, rep, rid="R-C03-fileid")
